@@ -9,3 +9,7 @@ package keypem
 //@ func ParsePrivKeyPem
 //@   trusted abstraction of encoding/pem and key unmarshalling
 //@   ensures ret1 == nil && ret0 != nil ==> pemPrivKeyOK(pemDat)
+
+// writes nothing that existed before the call; the encoding is a buffer of its own
+//@ func MarshalPubKeyPem
+//@   fresh ret0
